@@ -88,7 +88,7 @@ V(d, op, j, neg) ==
 Pass(d, op, j) == V(d, op, j, FALSE) = "PASS"
 
 OrderedType(t) == t \in {"int", "flt", "str"}
-Lower(x, y) ==   \* the numeric / lexicographic order, stated independently of the kernel
+OrdLower(x, y) ==   \* the numeric / lexicographic order, stated independently of the kernel
   CASE x.t = "int" -> x.v < y.v
     [] x.t = "flt" -> FRank(x.v) < FRank(y.v)
     [] x.t = "str" ->
@@ -119,7 +119,7 @@ PairLaws ==
      /\ Law("trichotomy", info, (lt /\ ~eq /\ ~gt) \/ (~lt /\ eq /\ ~gt) \/ (~lt /\ ~eq /\ gt))
      /\ Law("le-iff-lt-or-eq", info, le <=> (lt \/ eq))
      /\ Law("ge-iff-gt-or-eq", info, ge <=> (gt \/ eq))
-     /\ Law("order-is-numeric-or-lexicographic", info, (lt <=> Lower(x, y)) /\ (gt <=> Lower(y, x)))
+     /\ Law("order-is-numeric-or-lexicographic", info, (lt <=> OrdLower(x, y)) /\ (gt <=> OrdLower(y, x)))
      /\ Law("eq-is-identity-on-scalars", info, eq <=> (x.v = y.v))
      \* negation: not X > v holds exactly when X <= v does
      /\ Law("not-gt-is-le", info, V(di, "gt", j, TRUE) = V(di, "le", j, FALSE))
